@@ -11,7 +11,8 @@ theorem chk_ignorable : ∀ (h : Hint) (x : Obj), h.ignorable = true → chk W c
     simp only [Hint.ignorable] at hi
     simp only [chk]; exact chkAny_ignorable hs x hi
   | .cls _, _, hi | .shallow _, _, hi | .literal _, _, hi | .tupleFixed _, _, hi | .seq _ _, _, hi
-  | .reit _ _, _, hi | .quasi _ _, _, hi | .mapping _ _ _, _, hi | .typeOf _, _, hi | .annotated _ _, _, hi => by
+  | .reit _ _, _, hi | .quasi _ _, _, hi | .mapping _ _ _, _, hi | .typeOf _, _, hi | .annotated _ _, _, hi
+  | .generic _ _, _, hi => by
     simp [Hint.ignorable] at hi
 theorem chkAny_ignorable : ∀ (hs : List Hint) (x : Obj), anyIgnorable hs = true → chkAny W conf r hs x = true
   | [], _, hi => by simp [anyIgnorable] at hi
@@ -80,7 +81,7 @@ theorem filterMap_cls_any (hs : List Hint) (x : Obj) :
     cases h with
     | cls c => simp [chkAny, Hint.cls?, ih, chk, Bool.or_assoc]
     | any | shallow _ | union _ | literal _ | tupleFixed _ | seq _ _ | reit _ _ | quasi _ _ | mapping _ _ _
-    | typeOf _ | annotated _ _ =>
+    | typeOf _ | annotated _ _ | generic _ _ =>
       simp only [chkAny, Hint.cls?, List.filterMap_cons, List.filter_cons, Option.isNone_none, ↓reduceIte, ih]
       exact Bool.or_left_comm _ _ _
 
